@@ -218,7 +218,11 @@ class Polarity(Interp):
             return b
         if b.is_const and isinstance(b.lit, (list, tuple)) and len(b.lit) == 0:
             return a
-        pol = combine(a, b, pjoin)
+        # arms of a branch on a *mode* parameter (hard / soft output, training, ...) are not alternatives of one
+        # configuration: if the analysis configuration did not decide the branch, opposite polarities mean "unknown"
+        ctx = getattr(self, "join_ctx", None)
+        modey = ctx is not None and any(k in unparse(ctx) for k in ("noise_var is", "soft_output", "hard", "soft", "self.training", "mode", "output_type", "input_type"))
+        pol = combine(a, b, (lambda x, y: T if pjoin(x, y) == M and M not in (x, y) else pjoin(x, y)) if modey else pjoin)
         kind = a.kind if a.kind == b.kind else (a.kind if b.kind is None and b.is_const and b.lit is None else (b.kind if a.kind is None and a.is_const and a.lit is None else None))
         items = None
         if a.items is not None and b.items is not None and len(a.items) == len(b.items):
